@@ -135,15 +135,18 @@ def main(argv=None):
                 kinds[v["kind"]] = kinds.get(v["kind"], 0) + 1
             print("violation kinds (recorded, capped): %s; total violations counted: %d" % (
                 ", ".join("%s x%d" % kv for kv in sorted(kinds.items())), acc.violations_total))
-        if broken:
-            for b in broken:
-                print("BROKEN-CHECK property=%s vacuity guard failed: %s" % (prop_id, b))
-            return 2
         if reported:
+            # a confirmed violation outranks a failed vacuity guard (a breaking change may well starve a guard)
+            for b in broken:
+                print("note: vacuity guard not met on this tree: %s" % b)
             for v, path in reported:
                 print("violation kind=%s: %s" % (v["kind"], v["msg"].splitlines()[0][:300] if v["msg"] else ""))
                 print("VIOLATION property=%s replay=%s" % (prop_id, path))
             return 1
+        if broken:
+            for b in broken:
+                print("BROKEN-CHECK property=%s vacuity guard failed: %s" % (prop_id, b))
+            return 2
         return 0
     except core.HarnessError as exc:
         print("BROKEN-CHECK property=%s harness error: %s" % (prop_id, exc))
